@@ -329,4 +329,38 @@ def recvAll : List Item → Option (List (Nat × Nat))
   | .addr a :: .fd b :: rest => (recvAll rest).map ((a, b) :: ·)
   | _ => none
 
+/-! ### framing of a hand-off: does an address item precede the descriptor?
+
+    Acceptor._work passes `self.flags.unix_socket_path` to `delegate_work_to_pool`, which sends the address
+    `if not unix_socket_path`; `RemoteFdExecutor.receive_from_work_queue` reads one
+    `if not self.flags.unix_socket_path`.  With `--unix-socket-path P --ports N` connections accepted on the
+    extra TCP listeners do have an address, connections accepted on the unix listener have `None`. -/
+
+inductive ConnKind | tcp | unix
+  deriving DecidableEq, Repr
+
+/-- `delegate_work_to_pool`: decided from the flag alone -/
+def senderSends (unixFlag : Bool) (_k : ConnKind) : Bool := !unixFlag
+
+/-- the variant "send the address whenever the connection has one" -/
+def senderSendsByAddr (unixFlag : Bool) (k : ConnKind) : Bool := k == .tcp || !unixFlag
+
+/-- `receive_from_work_queue`: decided from the flag alone -/
+def receiverExpects (unixFlag : Bool) : Bool := !unixFlag
+
+def frame (sends : Bool) (i : Nat) : List Item := if sends then [.addr i, .fd i] else [.fd i]
+
+/-- pipe content after the hand-offs `hs` (id, kind), one after the other (`C17_handoff_atomic`) -/
+def framedPipe (policy : Bool → ConnKind → Bool) (u : Bool) (hs : List (Nat × ConnKind)) : List Item :=
+  hs.flatMap (fun h => frame (policy u h.2) h.1)
+
+/-- the worker's receive loop when it does / does not expect an address before each descriptor -/
+def recvFramed (expect : Bool) : List Item → Option (List (Option Nat × Nat))
+  | [] => some []
+  | .addr a :: .fd b :: rest =>
+    if expect then (recvFramed expect rest).map ((some a, b) :: ·) else none
+  | .fd b :: rest =>
+    if expect then none else (recvFramed expect rest).map ((none, b) :: ·)
+  | _ => none
+
 end Px.Modes
